@@ -78,7 +78,7 @@ def arr_digest(a):
 
 
 def check_output_plotfile(ctx, sig_base, out_path, expect, minmax="rows", taste=True,
-                          taste_coords=True, rtol=None):
+                          taste_coords=True, rtol=None, dx_rtol=None):
     """Compare a tool-written plotfile with the expected PlotModel.
 
     expect: PlotModel (fields, mesh, data).  minmax: 'true' -> rows must equal the
@@ -105,7 +105,12 @@ def check_output_plotfile(ctx, sig_base, out_path, expect, minmax="rows", taste=
             list(p.geo_high) != [float(v) for v in expect.geo_high]:
         bad("geometry", f"geometry {p.geo_low}-{p.geo_high} != {expect.geo_low}-{expect.geo_high}")
     for lv in range(expect.nlev):
-        if [float(v) for v in p.dx[lv]] != [float(v) for v in expect.dx[lv]]:
+        if dx_rtol:
+            okdx = len(p.dx[lv]) == len(expect.dx[lv]) and all(
+                abs(a - b) <= dx_rtol * abs(b) for a, b in zip(p.dx[lv], expect.dx[lv]))
+        else:
+            okdx = [float(v) for v in p.dx[lv]] == [float(v) for v in expect.dx[lv]]
+        if not okdx:
             bad("dx", f"L{lv} dx {p.dx[lv]} != {expect.dx[lv]}")
         if tuple(p.grid_sizes[lv]) != tuple(expect.grid_sizes[lv]):
             bad("grid_sizes", f"L{lv} grid {p.grid_sizes[lv]} != {expect.grid_sizes[lv]}")
